@@ -79,6 +79,12 @@ def run(ctx):
             construct(ctx, rng, xr, wavespectra)
         for i, rng in ctx.cases("readers", ctx.n(400, 8000)):
             readers(ctx, rng, xr, wavespectra)
+        for i, rng in ctx.cases("file_readers", ctx.n(48, 1000)):
+            d = tempfile.mkdtemp(dir=tmp)
+            try:
+                file_readers(ctx, rng, xr, wavespectra, d)
+            finally:
+                shutil.rmtree(d, ignore_errors=True)
         for i, rng in ctx.cases("writers", ctx.n(160, 4000)):
             d = tempfile.mkdtemp(dir=tmp)
             try:
@@ -253,6 +259,37 @@ def readers(ctx, rng, xr, ws):
     if model in ("ww3", "ncswan"):
         mech = "reader-helper-scales-callers-efth-in-place"
     pure(rec, "reader:" + model, key, call, {"native_dataset": ds}, mech=mech)
+
+
+def file_readers(ctx, rng, xr, ws, d):
+    """File readers given caller-owned option objects (chunks dictionaries, file lists)."""
+    rec = ctx.rec
+    from vf.checks.c11 import make_ds
+    ds, kinds, order = make_ds(rng, xr, "ww3")
+    ds = ds.fillna(0.0)
+    which = str(rng.choice(["ww3", "wavespectra", "swan_list", "json"]))
+    spell = str(rng.choice(["wavespectra", "native", "mixed", "unknown"]))
+    if which == "ww3":
+        path = os.path.join(d, "f_ww3.nc")
+        ds.spec.to_ww3(path)
+        chunks = {"wavespectra": {"time": 1, "site": 1, "freq": 2, "dir": 2}, "native": {"time": 1, "station": 1, "frequency": 2, "direction": 2},
+                  "mixed": {"time": 1, "station": 1, "freq": 2}, "unknown": {"time": 1, "nope": 3, "freq": 2}}[spell]
+        pure(rec, "file_reader:read_ww3", "chunks=%s" % spell, lambda: ws.read_ww3(path, chunks=chunks).load(), {"chunks": chunks})
+    elif which == "wavespectra":
+        path = os.path.join(d, "f.nc")
+        ds.spec.to_netcdf(path, ncformat="NETCDF3_64BIT", compress=False, packed=False)
+        chunks = {"time": 1, "freq": 2} if spell != "unknown" else {"time": 1, "nope": 2}
+        pure(rec, "file_reader:read_wavespectra", "chunks=%s" % spell, lambda: ws.read_wavespectra(path, chunks=chunks).load(), {"chunks": chunks})
+    elif which == "swan_list":
+        p1, p2 = os.path.join(d, "b.spec"), os.path.join(d, "a.spec")
+        ds.spec.to_swan(p1)
+        ds.spec.to_swan(p2)
+        files = [p1, p2]
+        pure(rec, "file_reader:read_swans", "list", lambda: ws.read_swans(files, int_freq=False), {"files": files})
+    else:
+        path = os.path.join(d, "f.json")
+        ds.spec.to_json(path)
+        pure(rec, "file_reader:read_json", "path", lambda: ws.read_json(path), {"path": path})
 
 
 def writers(ctx, rng, xr, ws, d):
